@@ -114,6 +114,15 @@ type vhEngLife struct {
 // vhStartEngine builds a complete engine on st for the genesis set vs; the harness answers
 // an init-chain request if one comes.
 func vhStartEngine(st *vhEngStores, vs tmconsensus.ValidatorSet) (*vhEngLife, error) {
+	return vhStartEngineWith(st, vs, vhE1CS{}, vhE1GS{done: make(chan struct{})}, nil)
+}
+
+// vhStartEngineWith: the same with a consensus strategy, gossip strategy and (optionally) a
+// signer of the harness's choice (a validating engine).
+func vhStartEngineWith(st *vhEngStores, vs tmconsensus.ValidatorSet, cs tmconsensus.ConsensusStrategy, gs interface {
+	Start(<-chan tmelink.NetworkViewUpdate)
+	Wait()
+}, signer tmconsensus.Signer) (*vhEngLife, error) {
 	hs := vkit.HashScheme{}
 	gen := &tmconsensus.ExternalGenesis{ChainID: "c", InitialHeight: 1, GenesisValidatorSet: vs}
 	l := &vhEngLife{finCh: make(chan tmdriver.FinalizeBlockRequest), inits: new(int)}
@@ -127,21 +136,36 @@ func vhStartEngine(st *vhEngStores, vs tmconsensus.ValidatorSet) (*vhEngLife, er
 		case <-l.ctx.Done():
 		}
 	}()
-	e, err := New(l.ctx, verifrt.Logger(),
+	opts := []Opt{}
+	if signer != nil {
+		opts = append(opts, WithSigner(signer))
+	}
+	e, err := New(l.ctx, verifrt.Logger(), append(opts,
 		WithGenesis(gen), WithHashScheme(hs), WithSignatureScheme(vkit.SigScheme{}),
 		WithCommonMessageSignatureProofScheme(gcrypto.SimpleCommonMessageSignatureProofScheme{}),
-		WithGossipStrategy(vhE1GS{done: make(chan struct{})}),
+		WithGossipStrategy(gs),
 		WithFinalizationStore(st.fs), WithMirrorStore(st.ms), WithRoundStore(st.rs), WithStateMachineStore(st.ss),
 		WithValidatorStore(st.vst), WithWatchdog(&gwatchdog.Watchdog{}),
-		WithConsensusStrategy(vhE1CS{}), WithBlockFinalizationChannel(l.finCh), WithInternalRoundTimer(vhE1RT{}),
+		WithConsensusStrategy(cs), WithBlockFinalizationChannel(l.finCh), WithInternalRoundTimer(vhE1RT{}),
 		WithCommittedHeaderStore(st.chs), WithActionStore(st.as), WithInitChainChannel(initCh),
-	)
+	)...)
 	if err != nil {
 		l.cancel()
 		return nil, err
 	}
 	l.e = e
 	return l, nil
+}
+
+// vhSettle lets the engine's goroutines run until they block (natively: a short wait).
+func vhSettle() {
+	if verifrt.Symbolic() {
+		for i := 0; i < 6; i++ {
+			runtime.Gosched()
+		}
+		return
+	}
+	time.Sleep(400 * time.Millisecond)
 }
 
 // stop cancels the life's context and waits for the engine (violation if it does not return).
